@@ -61,14 +61,27 @@ def opts_json(o: dict) -> dict:
 # ----------------------------------------------------------------------------------------------------------------------
 # enumeration from CPython's own parse (never from pfst)
 
+def _fstring_fields(js, path):
+    """(expression node, path) of every replacement field of the f-string `js`, including the fields nested in format
+    specs.  The FormattedValue wrappers, the literal text parts and the format-spec JoinedStr are not pieces of their own
+    (own_src() documents their text as not parsable on its own); what they hold is context."""
+    for i, v in enumerate(js.values):
+        if isinstance(v, ast.FormattedValue):
+            yield v.value, path + (('values', i), ('value', None))
+            if isinstance(v.format_spec, ast.JoinedStr):
+                yield from _fstring_fields(v.format_spec, path + (('values', i), ('format_spec', None)))
+
+
 def walk_paths(tree):
-    """(node, path) for every AST node under `tree` outside f-string internals; no expr_context nodes."""
+    """(node, path) for every AST node under `tree`, including the expressions inside f-string replacement fields (and
+    everything below them, nested f-strings too); no expr_context nodes."""
     stack = [(tree, ())]
     while stack:
         node, path = stack.pop()
         yield node, path
-        if isinstance(node, (ast.JoinedStr, ast.FormattedValue)):
-            continue  # f-string internals are outside every generator (DESIGN 2.6)
+        if isinstance(node, ast.JoinedStr):
+            stack.extend(_fstring_fields(node, path))
+            continue
         for name in node._fields:
             v = getattr(node, name, None)
             if isinstance(v, ast.AST):
@@ -270,6 +283,27 @@ class Recorder:
 
 NOPIECE = {'isFst': False, 'isRoot': False, 'kind': '', 'text': 0, 'liveS': 0, 'liveP': 0, 'alt': 0, 'embS': 0, 'embP': 0,
            'blank': False, 'src': ''}
+
+
+def in_debug_field(src: str, tree, path) -> bool:
+    """Oracle fact: the node at `path` lies inside a self-documenting replacement field (`{expr = }`), whose literal
+    text is the expression's *source text* (so it follows the formatting of whatever is put there)."""
+    n = tree
+    for f, i in path:
+        if isinstance(n, ast.FormattedValue) and f == 'value':
+            seg = ast.get_source_segment(src, n) or ''
+            ex = ast.get_source_segment(src, n.value) or ''
+            body = seg[1:].lstrip()
+            if ex and body.startswith(ex):
+                rest = body[len(ex):].lstrip()
+                if rest.startswith('=') and not rest.startswith('=='):
+                    return True
+        n = getattr(n, f, None)
+        if i is not None and isinstance(n, list):
+            n = n[i] if i < len(n) else None
+        if n is None:
+            return False
+    return False
 
 
 def block_indent(src: str, elems) -> int:
@@ -520,8 +554,8 @@ def init_state(rec: Recorder, src: str, indent='    '):
     return st, ids
 
 
-def node_cases(tree):
-    """One case per node (not the root, no f-string internals, no expr_context): the node itself."""
+def node_cases(tree, src=None):
+    """One case per node (not the root, no expr_context): the node itself."""
     out = []
     for node, path in walk_paths(tree):
         if not path:
@@ -534,6 +568,7 @@ def node_cases(tree):
                 par = par[i]
         fld = getattr(par, path[-1][0])
         out.append({'path': path, 'field': None, 'start': 0, 'stop': 0, 'slice': False, 'kind': kind, 'ekind': kind,
+                    'debug': src is not None and any(f == 'values' for f, _ in path) and in_debug_field(src, tree, path),
                     'elems': [node], 'parent': par, 'flen': len(fld) if isinstance(fld, list) else -1,
                     'emptied': path[-1][0] in ('orelse', 'finalbody') and isinstance(fld, list) and len(fld) == 1})
     return out
@@ -687,7 +722,7 @@ def replace_events(rec: Recorder, src, init, case, forms, o, indent='    '):
             exc = e
         out.append({'call': 'replace', 'op': form, 'path': path_json(case['path']), 'field': '', 'start': 0, 'stop': 0,
                     'slice': False, 'opts': opts_json(o), 'fresh': k == 0, 'kind': case['kind'], 'ekind': case['ekind'],
-                    'indent': block_indent(src, case.get('elems')),
+                    'indent': block_indent(src, case.get('elems')), 'debugField': bool(case.get('debug')),
                     'indent2': block_indent_at(root.src, case['path'], block_indent(src, case.get('elems'))),
                     'outcome': 'ok' if exc is None else 'raise', 'exc': exc_json(exc), 'rootOk': root_ok(root),
                     'post': rec.state(root, init['rootObj'])})
@@ -877,7 +912,7 @@ def run_shard(args):
                 infos.append(info)
 
         if what == 'c07':
-            cases = node_cases(tree) + slice_cases(tree, rng, conf.get('max_per_field', 12))
+            cases = node_cases(tree, src) + slice_cases(tree, rng, conf.get('max_per_field', 12))
             rng.shuffle(cases)
             if variant >= 300:  # multi-line parenthesised operands next to keywords: multi-line expression nodes first
                 ml = [c for c in cases if not c['slice'] and isinstance(c['elems'][0], ast.expr)
@@ -903,11 +938,14 @@ def run_shard(args):
                     TRIVIA_POOL if case.get('wc') and rng.random() < 0.5 else OPTION_POOL
                 o = dict(rng.choice(pool))
                 case['op'] = rng.choice(SLICE_OPS if case['slice'] else NODE_OPS)
-                info = {'what': 'c07', 'case': {a: case[a] for a in ('path', 'field', 'start', 'stop', 'slice', 'op', 'kind', 'emptied')},
-                        'opts': o}
-                add(extract_events(rec, src, tree, init, base_ids, case, o), info)
+                # pieces holding a multi-line string are extracted under every docstr mode (the docstring clauses
+                # depend on it), everything else under one option set
+                for o in ([o, {'docstr': 'strict'}, {'docstr': False}, {'docstr': True}] if case.get('mlstr') else [o]):
+                    info = {'what': 'c07', 'case': {a: case[a] for a in ('path', 'field', 'start', 'stop', 'slice', 'op', 'kind', 'emptied')},
+                            'opts': o}
+                    add(extract_events(rec, src, tree, init, base_ids, case, o), info)
         elif what == 'c08':
-            cases = node_cases(tree) + slice_cases(tree, rng, conf.get('max_per_field', 12))
+            cases = node_cases(tree, src) + slice_cases(tree, rng, conf.get('max_per_field', 12))
             rng.shuffle(cases)
             ro = FST(src, 'exec')
             if variant >= 300:  # multi-line parenthesised operands next to keywords: multi-line expression nodes first
